@@ -106,11 +106,22 @@ def strategy(tier):
                              ['ev_lose', 'recv1'], ['ev_lose']])),
             min_size=2, max_size=14 if big else 9),
         'final': st.booleans(),
+        # who ends the connection for good at the end of the history: the
+        # server (or the inner client's shutdown()), or the application,
+        # with the simple client's own disconnect() - whatever state the
+        # connection is in at that moment
+        'final_by': st.sampled_from(['server', 'server', 'app']),
         # after the connection has ended for good the application calls
         # connect() again on the same simple client: nothing of the first
         # connection may change how the second one behaves
         'second': st.booleans()})
-    return st.one_of(sync, asy)
+    # threaded, sequential: the application ends the connection itself,
+    # connected or in the middle of a reconnection
+    appd = st.fixed_dictionaries({
+        'aio': st.just(False), 'appdisc': st.just(True),
+        'n_before': st.integers(0, 2), 'lost': st.booleans(),
+        'received': st.integers(0, 2)})
+    return st.one_of(sync, asy, asy, appd)
 
 
 ENUM_TRUNCATED = False
@@ -170,9 +181,98 @@ def _key(case):
                  case.get('choices')))
 
 
+def _check_sync_appdisc(case):
+    socketio = core.bootstrap()
+    holder = {}
+
+    def answer(*_):
+        h = holder['h']
+        if h.eio.state == 'connected' and '/ns' not in h.sio.namespaces:
+            for f in wire.frames(wire.CONNECT, '/ns', None, {'sid': 'sid1'}):
+                h.deliver(f)
+
+    def factory(*a, **k):
+        h = ClientHarness(aio=False, reconnection=True,
+                          reconnection_attempts=2, reconnection_delay=1,
+                          randomization_factor=0)
+        holder['h'] = h
+        h.on_wait = answer
+        return h.sio
+    sc = socketio.SimpleClient()
+    sc.client_class = factory
+    sc.connect('http://h', namespace='/ns')
+    h = holder['h']
+    h.on_wait = None
+    labels = {'aio': False, 'application_disconnects': True,
+              'nontrivial': bool(case['lost'])}
+    for i in range(case['n_before']):
+        for f in wire.frames(wire.EVENT, '/ns', None, ['e', i]):
+            h.deliver(f)
+    got = []
+    for i in range(min(case['received'], case['n_before'])):
+        got.append(sc.receive(timeout=0.01))
+    if case['lost']:
+        h.plan[:] = ['fail', 'fail']
+        h.lose()
+        labels['application_disconnects_during_reconnection'] = True
+        n_att = len(h.attempts)
+        fired = []
+
+        def on_wait(ev, timeout):
+            # the effort's thread sits in its first back-off wait when the
+            # application's thread calls disconnect()
+            if ev is getattr(h.sio, '_reconnect_abort', None) and not fired:
+                fired.append(1)
+                sc.disconnect()
+        h.on_wait = on_wait
+        for b in list(h.bg):
+            b.run()
+        if not fired:
+            raise core.HarnessError('no reconnection effort after the loss')
+    else:
+        n_att = len(h.attempts)
+        sc.disconnect()
+        for b in list(h.bg):
+            b.run()
+    if len(h.attempts) != n_att:
+        raise Violation('reconnection-after-disconnect',
+                        'the application called disconnect() on the simple '
+                        'client; %d further connection attempt(s) were made'
+                        % (len(h.attempts) - n_att))
+    while len(got) < case['n_before']:
+        try:
+            got.append(sc.receive(timeout=0.01))
+        except Exception as e:
+            raise Violation('event-lost-or-reordered',
+                            'received before the end but never returned: '
+                            '%r after %r' % (e, got))
+    if got != [['e', i] for i in range(case['n_before'])]:
+        raise Violation('event-lost-or-reordered', repr(got))
+    try:
+        v = sc.receive(timeout=0.01)
+        raise Violation('event-lost-or-reordered', 'invented %r' % (v,))
+    except socketio.exceptions.DisconnectedError:
+        pass
+    except socketio.exceptions.TimeoutError:
+        raise Violation('timeout-after-the-end',
+                        'receive() after the application disconnected '
+                        '(transport lost before: %s) raises TimeoutError, '
+                        'not DisconnectedError' % case['lost'])
+    if not sc.connected_event.is_set():
+        raise Violation('emit-hangs-after-final-disconnect', '')
+    try:
+        sc.emit('x', 1)
+        raise Violation('emit-after-the-end', 'emit() returned')
+    except socketio.exceptions.DisconnectedError:
+        pass
+    return labels
+
+
 def check_case(case):
     if case['aio']:
         return _check_async(case)
+    if case.get('appdisc'):
+        return _check_sync_appdisc(case)
     r = _CACHE.pop(_key(case), None)
     if r is not None:
         if isinstance(r, Violation):
@@ -664,7 +764,27 @@ def _check_async(case):
         if case['final'] and not final[0]:
             live = [tk for n, tk in h.tasks
                     if n == '_handle_reconnect' and not tk.done()]
-            if live:
+            if case.get('final_by') == 'app' and sc.connected:
+                labels['application_disconnects'] = True
+                if live:
+                    labels['application_disconnects_during_reconnection'] \
+                        = True
+                    labels['nontrivial'] = True
+                n_att = len(h.attempts)
+                dt = loop.spawn(sc.disconnect())
+                loop.run_until_idle()
+                if not dt.done() or dt.exception() is not None:
+                    raise Violation('disconnect-failed', repr(dt))
+                for _ in range(4):
+                    if not loop.advance():
+                        break
+                if len(h.attempts) != n_att:
+                    raise Violation('reconnection-after-disconnect',
+                                    'the application called disconnect() on '
+                                    'the simple client; %d further '
+                                    'connection attempt(s) were made'
+                                    % (len(h.attempts) - n_att))
+            elif live:
                 loop.run(sc.client.shutdown())
             elif h.eio.state == 'connected':
                 for f in wire.frames(wire.DISCONNECT, '/ns'):
